@@ -211,3 +211,32 @@ Definition check_sorted_rows (rec_le : record -> record -> bool) (rows rows' : l
   && forallb2 (fun r r' => perm_b (recs r) (recs r') && sorted_recs rec_le (recs r')
                            && match r' with Some [] => false | Some _ => true | None => length (recs r) =? 0 end)
               rows rows'.
+
+(* ---------- the order used by sort_values on a nested layer: a parameter supplied per case ---------- *)
+(* rank: an order-preserving integer for every non-null value of a key field (distinct values may tie, e.g.
+   -0.0 and 0.0); nulls are placed by na_position whatever the direction; each key has its own direction *)
+Definition rank_of (tbl : list (val * Z)) (v : val) : Z :=
+  match find (fun p => val_eqb (fst p) v) tbl with Some p => snd p | None => 0%Z end.
+Definition cmp_val (tbl : list (val * Z)) (asc na_last : bool) (a b : val) : comparison :=
+  match is_null a, is_null b with
+  | true, true => Eq
+  | true, false => if na_last then Gt else Lt
+  | false, true => if na_last then Lt else Gt
+  | false, false => let c := Z.compare (rank_of tbl a) (rank_of tbl b) in if asc then c else CompOpp c
+  end.
+Fixpoint cmp_keys (tbl : list (val * Z)) (na_last : bool) (keys : list (nat * bool)) (a b : record) : comparison :=
+  match keys with
+  | [] => Eq
+  | (k, asc) :: t =>
+      match cmp_val tbl asc na_last (nth k a VNull) (nth k b VNull) with
+      | Eq => cmp_keys tbl na_last t a b
+      | c => c
+      end
+  end.
+Definition rec_le_keys (tbl : list (val * Z)) (na_last : bool) (keys : list (nat * bool)) (a b : record) : bool :=
+  match cmp_keys tbl na_last keys a b with Gt => false | _ => true end.
+(* two results agree up to ties: row by row the same sequence of keys *)
+Definition keys_agree (tbl : list (val * Z)) (na_last : bool) (keys : list (nat * bool)) (r1 r2 : list nrow) : bool :=
+  forallb2 (fun a b => forallb2 (fun x y => match cmp_keys tbl na_last keys x y with Eq => true | _ => false end) (recs a) (recs b)
+                       && Bool.eqb (match a with Some _ => true | None => false end) (match b with Some _ => true | None => false end))
+           r1 r2.
